@@ -49,7 +49,7 @@ func mvp1Cycles(p *isa.Program, ref *isa.Result) int {
 // C12 returns the check of property C12 (cycle accounting).
 func C12() api.Check {
 	return &check{
-		id: "C12", quick: 1500, thorough: 150000,
+		id: "C12", quick: 5000, thorough: 250000,
 		variants: allVariants,
 		gen: func(seed uint64, idx int, tier string) item {
 			var c *gen.Case
